@@ -160,6 +160,23 @@ def respond (line : String) : String :=
     match atomNat? lim, parseNames names, parseSchema schema, parseValue value with
     | some lim, some env, some s, some v => if validate floatOps { lim := lim } env bigFuel s v then "ok" else "rej"
     | _, _, _, _ => "bad-request"
+  | [.atom "sjson", lim, j] =>
+    -- parse a schema text (given as a JSON value) and serialize it again
+    match atomNat? lim, parseJson j with
+    | some lim, some j =>
+      (match parseTop (defaultOk bigFuel lim) bigFuel j with
+       | some s => s!"ok {showJOut (toJson s)}"
+       | none => "err")
+    | _, _ => "bad-request"
+  | [.atom "pcf", lim, j] =>
+    match atomNat? lim, parseJson j with
+    | some lim, some j =>
+      (match parseTop (defaultOk bigFuel lim) bigFuel j with
+       | some s => (match canonicalForm bigFuel s with
+         | some t => s!"ok {hex t} {(crc64Avro t).toNat}"
+         | none => "err panic")
+       | none => "err")
+    | _, _ => "bad-request"
   | [.atom "compat", w, r] =>
     match parseSchema w, parseSchema r with
     | some w, some r =>
